@@ -476,9 +476,18 @@ func heapRun(c Case) Result {
 						add(&heapSnap{c: ch, leaky: true})
 					}
 				}
-			case "cusers":
+			case "cusers", "ctrusted", "cadmins":
 				if id := natArg(op.Name); id < len(snaps) && snaps[id].c != nil {
-					for _, u := range snaps[id].c.Users(cl) {
+					var l []*girc.User
+					switch op.Kind {
+					case "cusers":
+						l = snaps[id].c.Users(cl)
+					case "ctrusted":
+						l = snaps[id].c.Trusted(cl)
+					default:
+						l = snaps[id].c.Admins(cl)
+					}
+					for _, u := range l {
 						add(&heapSnap{u: u, leaky: true})
 					}
 				}
@@ -722,7 +731,7 @@ func heapGenOps(r *rand.Rand, event func(*rand.Rand) Ev, members bool) Case {
 			}
 		case k < 13 && members:
 			if nsnaps > 0 {
-				ops = append(ops, heapOp{Tag: "S", Kind: Pick(r, "uchans", "cusers"), Name: strconv.Itoa(r.Intn(nsnaps))})
+				ops = append(ops, heapOp{Tag: "S", Kind: Pick(r, "uchans", "cusers", "cusers", "ctrusted", "cadmins"), Name: strconv.Itoa(r.Intn(nsnaps))})
 				nsnaps += 2
 			}
 		case k < 17:
@@ -785,6 +794,8 @@ func heapMembersFixed() []Case {
 		mk(heapOp{Tag: "S", Kind: "user", Name: "alice"}, heapOp{Tag: "S", Kind: "uchans", Name: "0"}, heapOp{Tag: "M", ID: 1, Field: "topic", Value: "defaced"}, heapOp{Tag: "R"}),
 		mk(heapOp{Tag: "S", Kind: "chan", Name: "#a"}, heapOp{Tag: "S", Kind: "cusers", Name: "0"}, heapOp{Tag: "M", ID: 1, Field: "elem", Index: 0, Value: "#zzz"}, heapOp{Tag: "R"}),
 		mk(heapOp{Tag: "S", Kind: "chan", Name: "#a"}, heapOp{Tag: "S", Kind: "cusers", Name: "0"}, heapE("alice", "NICK", "al"), heapOp{Tag: "I", ID: 1}),
+		mk(heapOp{Tag: "S", Kind: "chan", Name: "#a"}, heapOp{Tag: "S", Kind: "ctrusted", Name: "0"}, heapOp{Tag: "S", Kind: "cadmins", Name: "0"},
+			heapOp{Tag: "M", ID: 1, Field: "nick", Value: "zzz"}, heapOp{Tag: "M", ID: 3, Field: "away", Value: "gone"}, heapOp{Tag: "R"}),
 	}
 }
 
